@@ -87,6 +87,74 @@ func rerepr(c *Ctx, v any, depth int) any {
 	return v
 }
 
+// nearMiss returns a deep copy of a canonical JSON value (nil, bool, float64, string, []any,
+// map[string]any) changed at exactly one place, so that it is NOT JSON-equal to v by construction:
+// a flipped bool, a string with one more rune, a number moved by one, null turned into false, an
+// array or object with one more member, or one member replaced by its own near miss.
+func nearMiss(c *Ctx, v any) any {
+	switch x := v.(type) {
+	case nil:
+		return false
+	case bool:
+		return !x
+	case float64:
+		if x > -1e9 && x < 1e9 {
+			return x + 1
+		}
+		return float64(0)
+	case string:
+		return x + "~"
+	case []any:
+		out := make([]any, len(x))
+		for i := range x {
+			out[i] = clone(x[i])
+		}
+		if len(x) == 0 || c.W(4) == 0 {
+			return append(out, nil)
+		}
+		i := c.W(len(x))
+		out[i] = nearMiss(c, x[i])
+		return out
+	case map[string]any:
+		out := make(map[string]any, len(x)+1)
+		for k, e := range x {
+			out[k] = clone(e)
+		}
+		ks := sortedKeys(x)
+		if len(ks) == 0 || c.W(4) == 0 {
+			out["zz~"] = nil
+			return out
+		}
+		k := ks[c.W(len(ks))]
+		out[k] = nearMiss(c, x[k])
+		return out
+	}
+	return "~" // not a canonical value: any string differs from it
+}
+
+// canon reports whether v is built from nil, bool, float64, string, []any and map[string]any only.
+func canon(v any) bool {
+	switch x := v.(type) {
+	case nil, bool, float64, string:
+		return true
+	case []any:
+		for _, e := range x {
+			if !canon(e) {
+				return false
+			}
+		}
+		return true
+	case map[string]any:
+		for _, e := range x {
+			if !canon(e) {
+				return false
+			}
+		}
+		return true
+	}
+	return false
+}
+
 func typedJSON(v any) string {
 	return fmt.Sprintf("%T:%s", v, JSON(v))
 }
@@ -280,6 +348,8 @@ func driveC12(c *Ctx) {
 	var items []any
 	planted := false
 	diffRepr := false
+	pi, pj := -1, -1
+	var nearPairs [][2]int // pairs of positions in items that differ at exactly one place, by construction
 	switch mode {
 	case 0, 1:
 		n := c.W(9)
@@ -304,7 +374,23 @@ func driveC12(c *Ctx) {
 			}
 			items[j] = rerepr(c, clone0(items[i]), 2)
 			planted = true
+			pi, pj = i, j
 			diffRepr = reflect.TypeOf(items[i]) != reflect.TypeOf(items[j]) || typedJSON(items[i]) != typedJSON(items[j])
+		}
+		if n >= 2 && c.W(3) == 0 {
+			// a near miss of another element: equal everywhere but at one place
+			i := c.W(n)
+			j := c.W(n - 1)
+			if j >= i {
+				j++
+			}
+			if canon(items[i]) {
+				items[j] = nearMiss(c, items[i])
+				nearPairs = append(nearPairs, [2]int{i, j})
+				if planted && (i == pi || i == pj || j == pi || j == pj) {
+					planted = false // the planted duplicate was overwritten; others may remain, the definition decides
+				}
+			}
 		}
 		schema = &jsonschema.Schema{UniqueItems: true}
 		inst = items
@@ -321,6 +407,10 @@ func driveC12(c *Ctx) {
 		if n > 0 && c.W(2) == 0 {
 			inst = rerepr(c, clone0(vals[c.W(n)]), 2)
 			planted = true
+		} else if n > 0 && c.W(2) == 0 {
+			i := c.W(n)
+			inst = nearMiss(c, vals[i])
+			nearPairs = append(nearPairs, [2]int{i, n})
 		} else {
 			inst = GenValue(c, 2)
 		}
@@ -331,6 +421,9 @@ func driveC12(c *Ctx) {
 		if c.W(2) == 0 {
 			inst = rerepr(c, clone0(v), 2)
 			planted = true
+		} else if c.W(2) == 0 {
+			inst = nearMiss(c, v)
+			nearPairs = append(nearPairs, [2]int{0, 1})
 		} else {
 			inst = GenValue(c, 2)
 		}
@@ -382,6 +475,18 @@ func driveC12(c *Ctx) {
 	}
 	if planted && mode <= 1 && want {
 		c.Fail("C11/equal", "rerepr", "a value and its re-representation are not Equal: %q", typed)
+	}
+	for _, p := range nearPairs {
+		// Equal is also asked under the other map orders: the verdicts below are its verdicts
+		for k := 0; k < 3; k++ {
+			simrt.SetOrderPolicy(simrt.OrderSorted + k)
+			if eq(items[p[0]], items[p[1]]) {
+				c.Fail("C11/equal", "near-miss", "Equal(%s, %s) holds (map order %s) although the second differs from the first at one place by construction", typed[p[0]], typed[p[1]], policyName(simrt.OrderSorted+k))
+				break
+			}
+		}
+		simrt.SetOrderPolicy(simrt.OrderSorted)
+		c.Probe("near-miss-pair")
 	}
 	c.Out("definition says valid=%v (%d equal pairs)", want, len(eqPairs))
 
